@@ -1530,10 +1530,43 @@ func min(x, y value) value {
 	}
 
 	// return (y < x) ? y : x
+	if symOperand(x) || symOperand(y) {
+		if decideCond(binop(token.LSS, symType(x, y), y, x)) {
+			return y
+		}
+		return x
+	}
 	if binop(token.LSS, nil, y, x).(bool) {
 		return y
 	}
 	return x
+}
+
+func symOperand(v value) bool { _, ok := v.(Sym); return ok }
+
+// symType recovers the Go type of a min / max operand pair from its symbolic member
+func symType(x, y value) types.Type {
+	s, ok := x.(Sym)
+	if !ok {
+		s = y.(Sym)
+	}
+	switch {
+	case s.W == 64 && s.Signed:
+		return types.Typ[types.Int64]
+	case s.W == 64:
+		return types.Typ[types.Uint64]
+	case s.W == 32 && s.Signed:
+		return types.Typ[types.Int32]
+	case s.W == 32:
+		return types.Typ[types.Uint32]
+	case s.W == 16 && s.Signed:
+		return types.Typ[types.Int16]
+	case s.W == 16:
+		return types.Typ[types.Uint16]
+	case s.Signed:
+		return types.Typ[types.Int8]
+	}
+	return types.Typ[types.Uint8]
 }
 
 func max(x, y value) value {
@@ -1545,6 +1578,12 @@ func max(x, y value) value {
 	}
 
 	// return (y > x) ? y : x
+	if symOperand(x) || symOperand(y) {
+		if decideCond(binop(token.GTR, symType(x, y), y, x)) {
+			return y
+		}
+		return x
+	}
 	if binop(token.GTR, nil, y, x).(bool) {
 		return y
 	}
